@@ -10,7 +10,13 @@ from . import core, buildimpl
 from . import alignutil as U
 from . import sysutil as S
 
-COMP = {"A": "T", "C": "G", "G": "C", "T": "A", "N": "N", "a": "t", "c": "g", "g": "c", "t": "a", "n": "n"}
+# IUPAC complements (A-T, C-G, R-Y, K-M, B-V, D-H; S, W, N are their own), both cases; U is complemented to A
+_PAIRS = "AT CG RY KM BV DH SS WW NN"
+COMP = {}
+for _p in _PAIRS.split():
+    COMP[_p[0]], COMP[_p[1]] = _p[1], _p[0]
+    COMP[_p[0].lower()], COMP[_p[1].lower()] = _p[1].lower(), _p[0].lower()
+COMP["U"], COMP["u"] = "A", "a"
 
 
 def revcomp(s):
@@ -301,7 +307,7 @@ def oracle_c11(ent, d):
             cat, dest = "too_many_n", None
         elif cfg.max_ee is not None and qual is not None and near_gt(expected_errors_py(qual), cfg.max_ee) is True:
             cat, dest = "too_many_expected_errors", None
-        elif cfg.max_aer is not None and qual is not None and n > 0 and near_gt(expected_errors_py(qual) / n, cfg.max_aer) is True:
+        elif cfg.max_aer is not None and qual is not None and n > 0 and aer_above(qual, cfg.max_aer) is True:
             cat, dest = "too_high_average_error_rate", None
         elif cfg.casava and name.partition(" ")[2][1:4] == ":Y:":
             cat, dest = "casava_filtered", None
@@ -324,7 +330,7 @@ def oracle_c11(ent, d):
     if cfg.max_ee is not None or cfg.max_aer is not None:
         # float boundary cases are decided by the PrimFloat twin, not by this decimal oracle
         amb = any(q is not None and (near_gt(expected_errors_py(q), cfg.max_ee) is None if cfg.max_ee is not None else False) for _, s, q in final)
-        amb = amb or any(q is not None and len(s) and (near_gt(expected_errors_py(q) / len(s), cfg.max_aer) is None if cfg.max_aer is not None else False) for _, s, q in final)
+        amb = amb or any(q is not None and len(s) and (aer_above(q, cfg.max_aer) is None if cfg.max_aer is not None else False) for _, s, q in final)
         if amb:
             return None
     got = {k: v for k, v in res["report"]["read_counts"]["filtered"].items() if v}
@@ -336,6 +342,15 @@ def oracle_c11(ent, d):
         if res["files"].get(k, []) != expect[k]:
             return "file %d holds %d records, documented rule gives %d" % (k, len(res["files"].get(k, [])), len(expect[k]))
     return None
+
+
+def aer_above(qual, thr):
+    """expected errors per base above thr?  1, 2, 4 or 8 bases of one and the same quality: the sum of equal doubles and the division
+    are exact, so the rate is the single term itself and even equality with the threshold is decided ('above' is strict)"""
+    n = len(qual)
+    if n in (1, 2, 4, 8) and len(set(qual)) == 1:
+        return expected_errors_py(qual[0]) > thr
+    return near_gt(expected_errors_py(qual) / n, thr)
 
 
 def near_gt(x, thr):
@@ -948,6 +963,8 @@ def indexed_info_case(rng):
         q = rng.choice(seqs)
         occ = U.mutate(rng, q, rng.choice([0, 1, 1, 1, 2]), "ACGT") if rng.random() < 0.9 else U.rand_seq(rng, len(q), "ACGT")
         rest = U.rand_seq(rng, rng.choice([0, 3, 9, 15]), "ACGT")
+        if rng.random() < 0.25:
+            rest = ("N" + rest) if five else (rest + "N")   # an N right next to the copy: it is no part of the occurrence
         seq = occ + rest if five else rest + occ
         reads.append(("r%d" % i, seq, None if cfg.fasta else "".join(chr(33 + rng.randint(2, 40)) for _ in seq)))
     return cfg, reads
@@ -981,6 +998,18 @@ def maxee_boundary_case(rng):
         rng.shuffle(q)
         reads.append(("r%d" % i, U.rand_seq(rng, len(q), "ACGT"), "".join(q)))
     reads = [r for r in reads if r[1]]
+    return cfg, reads
+
+
+def maxaer_equal_case(rng):
+    """--max-aer exactly met: 1, 2, 4 or 8 bases of quality 10 / 20 / 30 against a threshold of 0.1 / 0.01 / 0.001 -- not above, so
+    kept; the next worse quality is above (consumed), the next better one below (kept)"""
+    q = rng.choice([10, 20, 30])
+    cfg = S.Cfg()
+    cfg.max_aer = float("0." + "0" * (q // 10 - 1) + "1")
+    reads = []
+    for i, (n, dq) in enumerate([(1, 0), (2, 0), (4, 0), (8, 0), (4, -1), (4, 1), (rng.choice([3, 5, 6, 7]), -2)]):
+        reads.append(("r%d" % i, U.rand_seq(rng, n, "ACGT"), chr(33 + q + dq) * n))
     return cfg, reads
 
 
@@ -1064,6 +1093,9 @@ def run(ctx, pid):
         if pid == "C11" and rng.random() < 0.04:
             cases.append(maxee_boundary_case(rng))
             continue
+        if pid == "C11" and rng.random() < 0.04:
+            cases.append(maxaer_equal_case(rng))
+            continue
         if (pid == "C17" and rng.random() < 0.1) or (pid == "C03" and rng.random() < 0.06):
             # (C03: with the index in use the written read is still a slice / an equally long masked copy, also when the read is
             # nothing but a damaged adapter and shorter than the longest indexed string)
@@ -1073,6 +1105,9 @@ def run(ctx, pid):
             cases.append(casava_nospace_case(rng))
             continue
         cfg, reads = S.rand_case(rng, FOCUS[pid])
+        if pid in ("C03", "C16") and cfg.revcomp and rng.random() < 0.3:
+            # ambiguity codes in the reads: the reverse complement maps every IUPAC letter (B<->V, D<->H, R<->Y, K<->M; S, W, N fixed)
+            reads = [(nm, "".join((rng.choice("BDHVRYKMSWbdhv") if rng.random() < 0.15 else c) for c in sq), ql) for nm, sq, ql in reads]
         cases.append((adjust(pid, rng, cfg), reads))
     results = S.correspond(ctx, cases, "pipeline(model) vs cutadapt.cli.main", rng_argv=(rng if pid == "C10" else None))
     dist = {}
